@@ -92,7 +92,7 @@ PANIC_NOTES = [
     ("PropertyManager::decode_tag_ids", "index", "tag_ids[", "i < len/2, hence 2i+1 <= len-1 for both accesses", None),
     ("versatiles_image::helper::image2blob", "panic", "todo", "unreachable arms: the only caller (from_debug::build_tile) calls image2blob* inside a match arm restricted to JPG | PNG | WEBP",
      {"kind": "callers_are", "callers": ["versatiles_pipeline::operations::read::from_debug::build_tile"]}),
-    ("helpers::csv::read_csv_file", "index", "header[col]", "read_csv_iter rejects every row whose field count differs from the first row, so col < header.len()", {"kind": "body_contains", "callee": "read_csv_iter"}),
+    ("helpers::csv::read_csv_file", "index", "header[col]", "read_csv_iter rejects every row whose field count differs from the first row, so col < header.len()", [{"kind": "body_contains", "callee": "read_csv_iter"}, {"kind": "set_once", "fn": "versatiles_core::utils::csv::read_csv_iter", "type": "usize"}]),
     ("from_debug::vector::draw_text", "unwrap", "from_features", "features are generated from the constant built-in font; not input dependent", None),
     ("from_debug::vector::get_multipolygon", "unwrap", "", "operates on the constant glyph outlines of the built-in font; not input dependent", None),
 ]
